@@ -28,7 +28,7 @@ ASSUMPTIONS = ["kernel / mean / constraint forward passes are trusted here (C05,
                "stochastic Lanczos log-determinant is NOT decided (statistical estimator); on the CG path only the deterministic value with "
                "skip_logdet_forward is compared"]
 
-FAMS = ["exact", "matern_ard", "sumprod", "linearmean", "fixednoise", "fixednoise_learn", "multitask", "multitask_r0", "sgpr", "sgpr2"]
+FAMS = ["exact", "matern_ard", "sumprod", "linearmean", "fixednoise", "fixednoise_learn", "multitask", "multitask_r0", "sgpr", "sgpr2", "fixednoise_sgpr"]
 PRIORS = [(), ("ls",), ("const",), ("noise",), ("os",), ("os_box",), ("ls", "const", "noise", "os"), ("task",), ("shared",)]
 BATCHES = [((), ()), ((2,), (2,)), ((2,), ()), ((), (2,)), ((3, 2), (3, 2)), ((2,), (3, 2)), ((2,), (1,)), ((2,), (2, 2))]
 SHAPES = [(1, 1), (4, 2), (5, 1)]
@@ -55,9 +55,9 @@ def cells(tier, seed):
             continue
         if fam.startswith("multitask") and (len(mb) > 1 or len(db) > 1):
             continue
-        if fam in ("sgpr", "sgpr2") and (mb or db):
+        if fam in ("sgpr", "sgpr2", "fixednoise_sgpr") and (mb or db):
             continue
-        if obj == "loo" and (fam.startswith("multitask") or fam in ("sgpr", "sgpr2")):
+        if obj == "loo" and (fam.startswith("multitask") or fam in ("sgpr", "sgpr2", "fixednoise_sgpr")):
             continue
         if shp == (1, 1) and obj == "loo":
             continue
@@ -174,7 +174,11 @@ def dense_objective(model, X, y, obj, mb=()):
                 with S.lazily_evaluate_kernels(False):
                     Kxx, Kxz, Kzz = bk(X, X).to_dense(), bk(X, Z).to_dense(), bk(Z, Z).to_dense()
                 Q = Kxz @ torch.linalg.solve(Kzz, Kxz.mT)
-                total = total - 0.5 * (Kxx - Q).diagonal(dim1=-1, dim2=-2).sum(-1) / model.likelihood.noise.reshape(())
+                # the noise of each training point, read off the likelihood (constant for a homoskedastic one, per point for fixed noise)
+                nn = X.shape[-2]
+                eye = torch.eye(nn, dtype=F64)
+                s2 = (model.likelihood(type(prior)(torch.zeros(nn, dtype=F64), eye), X).covariance_matrix - eye).diagonal(dim1=-1, dim2=-2)
+                total = total - 0.5 * ((Kxx - Q).diagonal(dim1=-1, dim2=-2) / s2).sum(-1)
             else:
                 total = total + term.loss(X)
     n_obs = prior.event_shape.numel() if obj != "loo" else y.shape[-1]
